@@ -429,6 +429,14 @@ func (formatEngine) Generate(rng *rand.Rand, prop string, thorough bool) *Plan {
 	p := seqEngine{}.Generate(rng, "C02", thorough) // sessions on
 	p.Property = prop
 	p.Engine = "format"
+	// no injected I/O errors here: this engine looks at what a fault-free history leaves in the files
+	var clean []Op
+	for _, op := range p.Tasks[0] {
+		if op.K != "closefail" && op.K != "iofail" && op.K != "syncfail" {
+			clean = append(clean, op)
+		}
+	}
+	p.Tasks[0] = clean
 	if len(p.Tasks[0]) > 120 {
 		p.Tasks[0] = p.Tasks[0][:120]
 	}
